@@ -28,6 +28,10 @@ pub struct Case {
     /// the control service stays inside "write back-pressure enabled" notifications until the final phase
     #[serde(default)]
     pub hold_bp: bool,
+    /// the receive limits admit one inbound packet at a time, and `Hold` operations keep inbound handlers suspended: while
+    /// one is suspended the publish service is not ready and the dispatcher reads nothing (back-pressure may lift meanwhile)
+    #[serde(default)]
+    pub busy_reader: bool,
 }
 
 fn fail(c: &Case, rule: &str, detail: String) -> Failure {
@@ -35,7 +39,25 @@ fn fail(c: &Case, rule: &str, detail: String) -> Failure {
 }
 
 pub async fn run_case(c: Case) -> Result<CaseInfo, Failure> {
-    let mut w = World::start_pre(c.role, c.limit, LimitHow::Config, 64, None, &|_| {}, &c.pre).await.map_err(|f| fail(&c, "harness-handshake", f.detail))?;
+    let busy_reader = c.busy_reader;
+    let mut w = World::start_pre(
+        c.role,
+        c.limit,
+        LimitHow::Config,
+        64,
+        None,
+        &|cfg| {
+            if busy_reader {
+                cfg.v3.max_receive = 1;
+                let sz = std::env::var("VERIF_RS").ok().and_then(|v| v.parse().ok()).unwrap_or(1usize);
+                cfg.v3.max_receive_size = sz;
+                cfg.v5.max_receive_size = sz;
+            }
+        },
+        &c.pre,
+    )
+    .await
+    .map_err(|f| fail(&c, "harness-handshake", f.detail))?;
     w.neg_pubrec = c.neg;
     if c.hold_bp {
         w.eut.app().hold_backpressure.set(true);
@@ -46,6 +68,7 @@ pub async fn run_case(c: Case) -> Result<CaseInfo, Failure> {
     let mut stream_paused = false;
     let mut trace: Vec<u8> = Vec::new();
     let mut inbound_while_stalled = false;
+    let mut held = false;
     for op in &c.ops {
         if w.ended() {
             break;
@@ -57,6 +80,16 @@ pub async fn run_case(c: Case) -> Result<CaseInfo, Failure> {
             if owed {
                 continue;
             }
+        }
+        // suspended inbound handlers (busy_reader histories): their responses come later, so no stream may be started or be
+        // in progress while one is held (a response falling due inside a payload is C08's subject)
+        match op {
+            Op::Hold(_) if !c.busy_reader => continue,
+            Op::Hold(true) if w.streams.iter().any(|s| s.handle.is_some() && (s.accepted.len() as u32) < s.declared) || w.partial_pub_out => continue,
+            Op::Hold(true) => held = true,
+            Op::Hold(false) => held = false,
+            Op::StreamStart { .. } if held => continue,
+            _ => {}
         }
         // at most one streamed publish per history (a second one is refused while the first owes payload)
         if matches!(op, Op::StreamStart { .. }) && !w.streams.is_empty() {
@@ -104,6 +137,8 @@ pub async fn run_case(c: Case) -> Result<CaseInfo, Failure> {
     }
     // ---- final phase: lift the stall, acknowledge everything, poll the survivors, until nothing changes
     w.apply(Op::Window(true)).await.map_err(|f| fail(&c, &f.rule, f.detail))?;
+    // suspended inbound handlers finish (the back-pressure above was lifted while the publish service was not ready)
+    w.apply(Op::Hold(false)).await.map_err(|f| fail(&c, &f.rule, f.detail))?;
     // a control service that was still busy with "back-pressure enabled" notifications returns only now, after the lift
     w.eut.app().release_backpressure();
     w.apply(Op::Settle).await.map_err(|f| fail(&c, &f.rule, f.detail))?;
@@ -265,6 +300,7 @@ fn op_strategy() -> BoxedStrategy<Op> {
         1 => any::<u8>().prop_map(Op::Release),
         2 => Just(Op::Send { kind: SendKind::Qos0, again: false, own_id: 0 }),
         2 => (0u8..4).prop_map(Op::Inbound),
+        1 => any::<bool>().prop_map(Op::Hold),
         1 => (0u8..2).prop_map(|qos| Op::StreamStart { qos, declared: 200, bad: 0 }),
         3 => prop::sample::select(vec![1u8, 2, 2, 3, 5]).prop_map(|len| Op::Chunk { stream: 0, len }),
     ]
@@ -274,7 +310,7 @@ fn op_strategy() -> BoxedStrategy<Op> {
 fn case_strategy(role: Role) -> BoxedStrategy<Case> {
     // one history in four (server roles) starts with futures created while the handshake service is still running
     let pre = prop_oneof![3 => Just(Vec::new()), 1 => prop::collection::vec((send_kind(), any::<bool>()), 1..5)];
-    (1u16..4, prop::collection::vec(op_strategy(), 3..26), pre, prop::bool::weighted(0.3), prop::bool::weighted(0.25)).prop_map(move |(limit, ops, pre, neg, hold_bp)| Case { role, limit, ops, neg: neg && role.is_v5(), hold_bp, pre: if role.is_server() { pre.into_iter().map(|(k, d)| (if matches!(k, SendKind::Subscribe | SendKind::Unsubscribe) { SendKind::Qos1 } else { k }, d)).collect() } else { Vec::new() } }).boxed()
+    (1u16..4, prop::collection::vec(op_strategy(), 3..26), pre, prop::bool::weighted(0.3), prop::bool::weighted(0.25), prop::bool::weighted(0.3)).prop_map(move |(limit, ops, pre, neg, hold_bp, busy_reader)| Case { role, limit, ops, neg: neg && role.is_v5(), hold_bp, busy_reader, pre: if role.is_server() { pre.into_iter().map(|(k, d)| (if matches!(k, SendKind::Subscribe | SendKind::Unsubscribe) { SendKind::Qos1 } else { k }, d)).collect() } else { Vec::new() } }).boxed()
 }
 
 pub fn check_case(c: &Case) -> Result<CaseInfo, Failure> {
